@@ -8,7 +8,9 @@ From GB Require Export Lock.
 (* the lock file as read by the harness after each step; process numbers are the harness's spawn order *)
 Inductive lk := LkNone | LkPid (id : nat) | LkTorn | LkOther.
 (* class of the message on stderr *)
-Inductive emsg := MNone | MLocked (id : nat) | MCorrupt | MOther.
+Inductive emsg := MNone | MLocked (id : nat) | MCorrupt | MOther
+  | MRemove      (* "remove .../lock: no such file or directory": the stale lock was cleaned by somebody else in between *)
+  | MHung.       (* burst member that neither serves nor exits: it passed the lock and is blocked behind the other holder *)
 Inductive exitc := XOk | XErr | XSig.
 Inductive how := HInt | HTerm | HKill | HFinOk | HFinErr.
 
@@ -34,7 +36,8 @@ Definition lk_match (l : option lockc) (o : lk) : bool :=
 Definition lk_eqb (a b : lk) : bool :=
   match a, b with LkNone, LkNone | LkTorn, LkTorn | LkOther, LkOther => true | LkPid p, LkPid q => Nat.eqb p q | _, _ => false end.
 Definition emsg_eqb (a b : emsg) : bool :=
-  match a, b with MNone, MNone | MCorrupt, MCorrupt | MOther, MOther => true | MLocked p, MLocked q => Nat.eqb p q | _, _ => false end.
+  match a, b with MNone, MNone | MCorrupt, MCorrupt | MOther, MOther | MRemove, MRemove | MHung, MHung => true
+  | MLocked p, MLocked q => Nat.eqb p q | _, _ => false end.
 Definition exitc_eqb (a b : exitc) : bool := match a, b with XOk, XOk | XErr, XErr | XSig, XSig => true | _, _ => false end.
 Definition set_eqb (a b : list nat) : bool := forallb (fun x => mem x b) a && forallb (fun x => mem x a) b.
 Definition nats_eqb (a b : list nat) : bool := (Nat.eqb (length a) (length b)) && forallb (fun p => Nat.eqb (fst p) (snd p)) (combine a b).
@@ -69,41 +72,34 @@ Definition end_exit (f : family) (h : how) : exitc :=
   | HFinErr => XErr
   end.
 
-(* bursts: every interleaving of the members' Test ; Create ; Write *)
-Record mb := mkmb { m_id : nat; m_pc : nat; m_out : out }.   (* pc 0,1,2: next sub-step; 3: holds; 4: exited with m_out *)
-Definition advance (s : st) (m : mb) : st * mb :=
-  match m_pc m with
-  | 0 => match step s (Test (m_id m)) with
-         | (s1, Granted) => (s1, mkmb (m_id m) 1 Granted)
-         | (s1, o) => (fst (kill1 s1 (m_id m)), mkmb (m_id m) 4 o)
-         end
-  | 1 => (fst (step s (Create (m_id m))), mkmb (m_id m) 2 Granted)
-  | 2 => (fst (step s (Write (m_id m))), mkmb (m_id m) 3 Granted)
-  | _ => (s, m)
-  end.
+(* bursts: every interleaving of the members' read ; (remove) ; write (Lock.badvance) *)
 Fixpoint upd {A} (l : list A) (i : nat) (x : A) : list A :=
   match l, i with [], _ => [] | _ :: t, 0 => x :: t | y :: t, S i => y :: upd t i x end.
-Definition mb0 := mkmb 0 4 Ignored.
-Fixpoint inter (fuel : nat) (s : st) (ms : list mb) : list (st * list mb) :=
+Definition bm0 := mkbm 0 4 BGo.
+Fixpoint inter (fuel : nat) (s : st) (ms : list bm) : list (st * list bm) :=
   match fuel with
   | 0 => [(s, ms)]
   | S fuel =>
-      match filter (fun i => Nat.ltb (m_pc (nth i ms mb0)) 3) (seq 0 (length ms)) with
+      match filter (fun i => Nat.ltb (b_pc (nth i ms bm0)) 3) (seq 0 (length ms)) with
       | [] => [(s, ms)]
-      | runnable => flat_map (fun i => let '(s', m') := advance s (nth i ms mb0) in inter fuel s' (upd ms i m')) runnable
+      | runnable => flat_map (fun i => let '(s', m') := badvance s (nth i ms bm0) in inter fuel s' (upd ms i m')) runnable
       end
   end.
-Definition mb_match (m : mb) (o : nat * bool * emsg) : bool :=
+Definition hung (m : emsg) : bool := match m with MHung => true | _ => false end.
+Definition bm_match (m : bm) (o : nat * bool * emsg) : bool :=
   let '(id, rdy, msg) := o in
-  Nat.eqb (m_id m) id &&
-  match m_pc m, m_out m with
-  | 3, _ => rdy
-  | _, Refused q => negb rdy && emsg_eqb msg (MLocked q)
-  | _, Corrupt => negb rdy && emsg_eqb msg MCorrupt
+  Nat.eqb (b_id m) id &&
+  match b_pc m, b_out m with
+  | 3, _ => rdy || hung msg
+  | _, BRefused q => negb rdy && emsg_eqb msg (MLocked q)
+  | _, BRemoveErr => negb rdy && emsg_eqb msg MRemove
   | _, _ => false
   end.
-Fixpoint mbs_match (ms : list mb) (os : list (nat * bool * emsg)) : bool :=
-  match ms, os with [], [] => true | m :: ms', o :: os' => mb_match m o && mbs_match ms' os' | _, _ => false end.
+Fixpoint bms_match (ms : list bm) (os : list (nat * bool * emsg)) : bool :=
+  match ms, os with [], [] => true | m :: ms', o :: os' => bm_match m o && bms_match ms' os' | _, _ => false end.
+(* the harness kills the members it found hung *)
+Definition kill_hung (os : list (nat * bool * emsg)) (s : st) : st :=
+  fold_left (fun s o => if hung (snd o) then fst (kill1 s (fst (fst o))) else s) os s.
 
 (* successor states of one model state that are consistent with what was observed at this step *)
 Definition succ (k : kstep) (s : st) : list st :=
@@ -135,8 +131,8 @@ Definition succ (k : kstep) (s : st) : list st :=
           end
       end
   | KBurst f os =>
-      let ms := map (fun o => mkmb (fst (fst o)) 0 Ignored) os in
-      map fst (filter (fun r => mbs_match (snd r) os) (inter (S (3 * length ms)) s ms))
+      let ms := map (fun o => mkbm (fst (fst o)) 0 BGo) os in
+      map (fun r => kill_hung os (fst r)) (filter (fun r => bms_match (snd r) os) (inter (S (3 * length ms)) s ms))
   | KPlant id =>   (* what the pinned tree's open leaves when killed between its two steps *)
       match step s (TestPinned id) with
       | (s1, Granted) => [fst (kill1 (fst (step s1 (CreatePinned id))) id)]
@@ -199,7 +195,8 @@ Definition step_ok (H : list nat) (L : lk) (o : sobs) : bool :=
       | KHold id _ rdy _ _ => rdy && lk_eqb la (LkPid id) && mem id al        (* the open succeeds *)
       | KEnd _ _ _ _ => false
       | KKillAt id _ pa x m => match x with XSig => true | _ => match pa with EarlyErr => true | _ => opened m && negb (lk_eqb la (LkPid id)) end end
-      | KBurst _ os => existsb (fun r => snd (fst r)) os                      (* somebody gets it *)
+      | KBurst _ os => existsb (fun r => snd (fst r)) os &&                   (* somebody gets it *)
+                       Nat.leb (length (filter (fun r => snd (fst r) || hung (snd r)) os)) 1   (* and nobody else passes the lock *)
       | KPlant _ => true
       end
   | _ => true   (* already reported at the step that produced two holders *)
